@@ -129,3 +129,26 @@ check("C17", "exploration",
               "cb_zero_reads": 100000, "implicit_tick_advances": 10000, "explicit_tick_skips": 10000,
               "pattern_player_after_skip_cid_not_above": 5000, "buffer_compactions": 10000, "buffer_growths": 1000,
               "truncations": 100000, "corruptions": 10000, "cb_error_injections": 1000})
+
+check("C12", "exploration",
+      [native("quick")],
+      [native("thorough"), miri(shards=4)],
+      minima={"completed_transfers": 100000, "duplicate_messages": 50000, "stale_messages": 50000, "exhaustive_schedules": 10000,
+              "split_by_library": 10000, "split_independently": 10000, "library_splitter_not_applicable": 1000, "max_parts": 32,
+              "interleave_mode_1": 1000, "interleave_mode_2": 1000})
+
+check("C13", "fault_enumeration",
+      [native("quick")],
+      [native("thorough"), miri(shards=4)],
+      minima={"accepted_snapshots": 100000, "multi_part_snapshots": 10000, "resyncs_after_unknown_base": 1000,
+              "acks_for_unknown_or_dropped_snapshots": 10000, "deltas_vs_acked_base": 100000, "deltas_vs_empty": 10000,
+              "receiver_errors": 3, "max_uuid_types_live": 3})
+
+check("C16", "exploration",
+      [native("quick")],
+      [native("thorough"), native("thorough", profile="release", name="native-release"), miri(shards=8)],
+      minima={"wellformed_compared": 5000, "items_compared": 20000, "data_blocks_compared": 10000, "corruptions_field": 1000000,
+              "truncations": 1000000, "corruptions_zblock": 100000, "corruptions_consistent": 100000, "callback_failures": 50000,
+              "files_random": 1000000, "accepted_corrupted": 100000, "files_disk": 2000, "maps_disk": 2000,
+              "maps_wellformed_compared": 500, "map_values_compared": 10000, "map_accessor_calls_ok": 100000,
+              "map_accessor_calls_err": 50000, "map_accessors": 30, "errors": 10})
